@@ -22,6 +22,7 @@ fn cfgs() -> Vec<Entry> {
     c!(v, true,"fixed",W8D,Stack<32>,dyn Cloneable);
     c!(v, true,"fixed",B1D,StackN<3, 3>,dyn Cloneable);
     c!(v, true,"fixed",W8D,StackN<3, 40>,dyn Cloneable); // slack: SIZE / N is not the element size
+    c!(v, true,"fixed",Z,Stack<8>,dyn Cloneable); // zero-sized, no drop glue, unbounded capacity: len == usize::MAX is reachable (set_len)
     c!(v, true,"fixed",W8D,TrackFixed<4>,dyn Cloneable);
     c!(v, true,"general",W8D,TrackWarm,dyn Cloneable);
     v
